@@ -55,7 +55,15 @@ func raceChild() {
 			time.Sleep(500 * time.Microsecond)
 		}
 	}()
-	wg.Wait()
+	allBack := make(chan struct{})
+	go func() { wg.Wait(); close(allBack) }()
+	select {
+	case <-allBack:
+	case <-time.After(hangAfter + watchdog):
+		// a producer, SendDirect or ApplyConfig never came back: the sender is deadlocked
+		fmt.Fprintln(os.Stderr, "C16-CHILD-HANG: calls into the running sender (Add / SendDirect / ApplyConfig) did not return within", hangAfter+watchdog)
+		os.Exit(7)
+	}
 	time.Sleep(10 * time.Millisecond)
 	snd.StopForVerif()
 	select {
@@ -100,15 +108,35 @@ func checkSettingsRace(env *vh.Env, rep *vh.Report) {
 		rep.Note("race build of the harness for the D69 child: %.1fs", time.Since(t).Seconds())
 	}
 	var report string
-	for attempt := 0; attempt < 3 && report == ""; attempt++ {
+	hang := ""
+	for attempt := 0; attempt < 3 && report == "" && hang == ""; attempt++ {
 		cmd := exec.Command(bin, "-child", "d69")
 		var errb bytes.Buffer
 		cmd.Stderr = &errb
 		cmd.Env = append(os.Environ(), "GORACE=halt_on_error=0 exitcode=0")
-		_ = cmd.Run()
+		if err := cmd.Start(); err != nil {
+			rep.Note("D69 race scenario skipped: %v", err)
+			return
+		}
+		fin := make(chan struct{})
+		go func() { cmd.Wait(); close(fin) }()
+		select {
+		case <-fin:
+		case <-time.After(hangAfter + 3*watchdog):
+			cmd.Process.Kill()
+			<-fin
+			hang = "the scenario did not finish and was stopped"
+		}
+		if i := strings.Index(errb.String(), "C16-CHILD-HANG:"); i >= 0 {
+			hang = firstLine(errb.String()[i:])
+		}
 		if i := strings.Index(errb.String(), "WARNING: DATA RACE"); i >= 0 {
 			report = errb.String()[i:]
 		}
+	}
+	if hang != "" {
+		rep.Fail("property", "reload-while-appending:hang", "real background loop + producer + SendDirect caller + 30 ApplyConfig calls on one sender: "+hang+" — the sender deadlocks under a configuration update that arrives while it appends / flushes",
+			map[string]interface{}{"case": &Case{Kind: "race"}, "scenario": "harness -child d69"})
 	}
 	replay := map[string]interface{}{"case": &Case{Kind: "race"},
 		"scenario": "real background loop + producer + SendDirect caller + 30 ApplyConfig calls (max_wait_time, max_buffer_size, logsink_zip_min_size changing; queue size constant), built with -race"}
